@@ -573,18 +573,16 @@ Definition doc_cluster_conf (c : cluster_conf) : bool :=
      | None => is_prefix [47] (odef s_health (cc_uri c)) && status_code_ok (odef 0 (cc_status c))
      end
   && match cc_succ c with None => true | Some n => 1 <=? n end
-  && match cc_hash_strategy c with
-     | None | Some 1 | Some 3 => true
-     | Some 0 | Some 2 =>
-         match cc_hash_header c with
-         | Some (x :: h) => match after_colon (x :: h) with
-                            | None => true
-                            | Some k => negb (forallb is_space_go k)
-                            end
-         | _ => false
-         end
-     | _ => false
-     end
+  && (let st := odef 1 (cc_hash_strategy c) in      (* 1 ClientIpOnly (default), 3 RequestURI; 0 ClientIdOnly and 2 ClientIdPreferred need a header *)
+      (st =? 1) || (st =? 3)
+      || (((st =? 0) || (st =? 2))
+          && match cc_hash_header c with
+             | Some (x :: h) => match after_colon (x :: h) with
+                                | None => true
+                                | Some k => negb (forallb is_space_go k)     (* "Cookie:Key" with a non-blank key *)
+                                end
+             | _ => false
+             end))
   && match cc_bal_mode c with None => true | Some m => seqb m s_WRR || seqb m s_WLC end.
 Definition doc_cluster (f : cluster_file) : bool :=
   match cf_version f, cf_config f with
